@@ -11,7 +11,8 @@ Inductive ltok :=
 | LStr (v : bytes)                   (* "..." with quote and backslash escaped *)
 | LFun (ty : ttype) (w : bytes)      (* a function keyword (rate, sum, ip, ...): keeps its type when ( or by / without follows *)
 | LNum (ds : bytes)                  (* a number written as digits *)
-| LDur (ds u : bytes).               (* a duration written as digits and ONE unit: 5m, 30s, 250ms *)
+| LDur (ds u : bytes)                (* a duration written as digits and ONE unit: 5m, 30s, 250ms *)
+| LRaw (v : bytes).                  (* a raw string `...` (no escapes; the content holds no back quote) *)
 
 Fixpoint esc (k : bytes) : bytes :=
   match k with
@@ -20,9 +21,9 @@ Fixpoint esc (k : bytes) : bytes :=
   end.
 
 Definition ltext (t : ltok) : bytes :=
-  match t with LId n => n | LWord _ w => w | LPunct _ w => w | LStr v => """"%byte :: esc v ++ [""""%byte] | LFun _ w => w | LNum ds => ds | LDur ds u => ds ++ u end.
+  match t with LId n => n | LWord _ w => w | LPunct _ w => w | LStr v => """"%byte :: esc v ++ [""""%byte] | LFun _ w => w | LNum ds => ds | LDur ds u => ds ++ u | LRaw v => "`"%byte :: v ++ ["`"%byte] end.
 Definition lres (t : ltok) : ttype * bytes :=
-  match t with LId n => (TIdent, n) | LWord ty w => (ty, w) | LPunct ty w => (ty, w) | LStr v => (TString, v) | LFun ty w => (ty, w) | LNum ds => (TNumber, ds) | LDur ds u => (TDuration, ds ++ u) end.
+  match t with LId n => (TIdent, n) | LWord ty w => (ty, w) | LPunct ty w => (ty, w) | LStr v => (TString, v) | LFun ty w => (ty, w) | LNum ds => (TNumber, ds) | LDur ds u => (TDuration, ds ++ u) | LRaw v => (TString, v) end.
 
 Definition printable (c : byte) : bool := (32 <=? bz c) && (bz c <=? 126).
 (** a punctuation character: in the alphabet, and none of the characters the lexer treats specially before the table lookup *)
@@ -51,6 +52,7 @@ Definition wf_ltok (t : ltok) : Prop :=
   | LFun ty w => is_valid_label w = true /\ lookup_kw w keyword_table = Some ty /\ is_function ty = true
   | LNum ds => digits_ok ds
   | LDur ds u => digits_ok ds /\ match ds with c :: _ => byte_eqb c "0"%byte = false | [] => False end /\ (length ds <= 9)%nat /\ In u duration_units
+  | LRaw v => forallb (fun b => in_alphabet b && negb (byte_eqb b "`"%byte)) v = true
   end.
 
 Definition all_space (ws : bytes) : Prop := ws <> [] /\ forallb is_space_b ws = true.
@@ -256,11 +258,37 @@ Proof.
   destruct (u ++ sp :: r) as [|d r1] eqn:Er; [contradiction|]. destruct Hd1 as [D1 D2]. rewrite D1, D2. rewrite Hsc. reflexivity.
 Qed.
 
+(** raw strings *)
+Lemma scan_raw_app v : forall acc r, forallb (fun b => in_alphabet b && negb (byte_eqb b "`"%byte)) v = true ->
+  scan_raw (v ++ "`"%byte :: r) acc = Some (acc ++ v, r).
+Proof.
+  induction v as [|c t IH]; intros acc r H.
+  - cbn. rewrite app_nil_r. reflexivity.
+  - cbn in H. apply andb_true_iff in H. destruct H as [Hc Ht]. apply andb_true_iff in Hc. destruct Hc as [_ Hq]. apply negb_true_iff in Hq.
+    cbn [app scan_raw]. rewrite Hq. rewrite IH by exact Ht. rewrite <- app_assoc. reflexivity.
+Qed.
+
+Lemma raw_alphabet v : forallb (fun b => in_alphabet b && negb (byte_eqb b "`"%byte)) v = true -> forallb in_alphabet v = true.
+Proof.
+  induction v as [|c t IH]; intro H; [reflexivity|]. cbn in H. apply andb_true_iff in H. destruct H as [Hc Ht].
+  apply andb_true_iff in Hc. destruct Hc as [Ha _]. cbn. rewrite Ha. apply IH. exact Ht.
+Qed.
+
+Lemma raw_step v r f acc : forallb (fun b => in_alphabet b && negb (byte_eqb b "`"%byte)) v = true ->
+  lex_loop (S f) ("`"%byte :: v ++ "`"%byte :: r) acc = lex_loop f r (acc ++ [(TString, v)]).
+Proof.
+  intro Hv. cbn [lex_loop]. change (in_alphabet "`"%byte) with true. change (is_space_b "`"%byte) with false.
+  change (byte_eqb "`"%byte "#"%byte) with false. change (byte_eqb "`"%byte "'"%byte) with false. change (byte_eqb "`"%byte "/"%byte) with false.
+  change (byte_eqb "`"%byte "."%byte) with false. change (byte_eqb "`"%byte "-"%byte) with false. change (is_digit_b "`"%byte) with false.
+  change (byte_eqb "`"%byte """"%byte) with false. change (byte_eqb "`"%byte "`"%byte) with true. cbn [negb andb]. cbn iota.
+  rewrite (scan_raw_app v [] r Hv). cbn [app]. rewrite (raw_alphabet v Hv). reflexivity.
+Qed.
+
 Definition wf_item (p : ltok * bytes) : Prop := wf_ltok (fst p) /\ all_space (snd p).
 
 Lemma ltext_len t : wf_ltok t -> (1 <= length (ltext t))%nat.
 Proof.
-  destruct t as [n|ty w|ty w|v|ty w|ds|ds u]; cbn [wf_ltok ltext].
+  destruct t as [n|ty w|ty w|v|ty w|ds|ds u|v]; cbn [wf_ltok ltext].
   - intros [H _]. unfold is_valid_label in H. destruct n; [discriminate|cbn; lia].
   - intros [H _]. unfold is_valid_label in H. destruct w; [discriminate|cbn; lia].
   - destruct w as [|c [|d [|e w']]]; try contradiction; cbn; lia.
@@ -268,6 +296,7 @@ Proof.
   - intros [H _]. unfold is_valid_label in H. destruct w; [discriminate|cbn; lia].
   - destruct ds; [contradiction|]. intros _. cbn. lia.
   - destruct ds; [intros [[] _]|]. intros _. cbn. lia.
+  - intros _. cbn. lia.
 Qed.
 
 (** a function keyword keeps its type when the next token (after the white space) starts with an opening parenthesis, or with b / w
@@ -325,7 +354,7 @@ Proof.
     { intros f' acc' Hf'. destruct (skip_spaces (sp :: ws') f' (layout r) acc') as [f'' [Hlt ->]]; [cbn; rewrite Hs; exact Hws|exact Hf'|].
       apply IH; assumption. }
     pose proof (ltext_len t Ht) as Hlen. rewrite app_length in Hf.
-    destruct t as [n|ty w|ty w|v|ty w|ds|ds u]; cbn [wf_ltok ltext lres] in *.
+    destruct t as [n|ty w|ty w|v|ty w|ds|ds u|v]; cbn [wf_ltok ltext lres] in *.
     all: try change ((sp :: ws') ++ layout r) with (sp :: (ws' ++ layout r)).
     + destruct Ht as [Hv Hk]. rewrite (word_step n sp _ f acc Hv Hs), Hk.
       change (sp :: ws' ++ layout r) with ((sp :: ws') ++ layout r). rewrite Hcont; [|cbn [app length] in *; rewrite app_length in *; lia].
@@ -357,6 +386,9 @@ Proof.
       rewrite <- app_assoc. reflexivity.
     + destruct Ht as [Hd [Hnz [Hl Hu]]]. rewrite (dur_step ds u sp _ f acc Hd Hnz Hl Hu Hs).
       change (sp :: ws' ++ layout r) with ((sp :: ws') ++ layout r). rewrite Hcont; [|cbn [app length] in *; rewrite !app_length in *; lia].
+      rewrite <- app_assoc. reflexivity.
+    + cbn [app]. rewrite <- app_assoc. cbn [app]. rewrite (raw_step v _ f acc Ht).
+      change (sp :: ws' ++ layout r) with ((sp :: ws') ++ layout r). rewrite Hcont; [|cbn [app length] in *; rewrite !app_length in *; cbn [length] in *; lia].
       rewrite <- app_assoc. reflexivity.
 Qed.
 
